@@ -13,7 +13,7 @@ func init() {
 	register(&Prop{
 		ID:         "C13",
 		Title:      "Primary keys identify items faithfully and are enforced",
-		Decided:    "(R1) the function that renders a composite key must use an injective encoding (per-component quoting/escaping of the separator, a length prefix, or %q): joining raw renderings with a constant separator that can occur inside a component is recognised as the non-injective idiom; (R2) at every call site of keySchema.GetKey the error result is extracted and tested (the only accepted discard is the sparse-index case inside GetKey itself); (R3) in the key-attribute accessors the case for type label X returns field X of the attribute and tests presence of that same field, and a value is produced only on the present∧typed edges; (R4) UpdateItem re-derives the key of the updated item before committing and rejects a change; (R5) GetItem/Delete/Update address Table.Data with the key derived from the request's Key by the table's own schema (shared with C01.R3); (R6) no function on the key derivation path rounds, trims, folds or re-formats a component (shared with C01.R8): two different key values never become one key string; (R7) the declared type of an attribute decides how its key text is built and which requests are well typed: every write into Table.AttributesDef that a client operation other than table creation can reach is guarded by a test that the attribute is not defined yet.",
+		Decided:    "(R1) the function that renders a composite key must use an injective encoding (per-component quoting/escaping of the separator, a length prefix, or %q): joining raw renderings with a constant separator that can occur inside a component is recognised as the non-injective idiom; (R2) at every call site of keySchema.GetKey the error result is extracted and tested (the only accepted discard is the sparse-index case inside GetKey itself); (R3) in the key-attribute accessors the case for type label X returns field X of the attribute and tests presence of that same field, and a value is produced only on the present∧typed edges; (R4) UpdateItem re-derives the key of the updated item before committing and rejects a change; (R5) GetItem/Delete/Update address Table.Data with the key derived from the request's Key by the table's own schema (shared with C01.R3); (R6) no function on the key derivation path rounds, trims, folds or re-formats a component (shared with C01.R8): two different key values never become one key string; (R7) the declared type of an attribute decides how its key text is built and which requests are well typed: every write into Table.AttributesDef that a client operation other than table creation can reach is guarded by a test that the attribute is not defined yet; (R8) in both clients every success return of PutItem, UpdateItem, DeleteItem and GetItem is dominated by a call into the engine that derives the key with the table's schema (the only place a missing or wrongly typed key attribute is rejected): a shortcut that answers before that call accepts malformed keys; (R9) SET stores a copy of its operand (= C07.R11): otherwise `SET next = seq ADD next :one` increments the key attribute seq through the object the two names share.",
 		NotDecided: "that the rendering of each single component is itself injective per type (%v of a string, of a number literal: see C12 for numerals); attribute types that DynamoDB does not allow as keys.",
 		Rules: []RuleDef{
 			{ID: "R1", Desc: "composite key encoding is injective (idiom rule on the key-rendering function)", Run: c13R1},
@@ -54,6 +54,8 @@ func init() {
 					e.obs[i].Rule = "R6"
 				}
 			}},
+			{ID: "R8", Desc: "single-item operations report success only after the engine has validated the key: every success return of the client methods is dominated by the core call that derives the key", Run: c13R8},
+			{ID: "R9", Desc: "an update cannot change a key attribute through a shared object: SET stores a copy of its operand (= C07.R11)", Run: aliasRule("R9", c07R11, nil)},
 		},
 	})
 }
@@ -470,4 +472,62 @@ func sameAddr(a, b ssa.Value) bool {
 		return fa.Field == fb.Field && (fa.X == fb.X || sameLoad(fa.X, fb.X))
 	}
 	return false
+}
+
+// c13R8: the engine is the only place a key is checked (GetKey: attribute present, of the declared type). A client method
+// that can return success without having called into it – an "empty table, nothing to delete" fast path – accepts
+// malformed keys whenever that path is taken.
+func c13R8(e *Engine) {
+	gk := e.fn("core", "keySchema.GetKey")
+	if !e.anchor("R8", "core.keySchema.GetKey", gk == nil) {
+		return
+	}
+	n := 0
+	for _, role := range clientRoles {
+		ms := e.clientMethods(role)
+		for _, op := range []string{"PutItem", "UpdateItem", "DeleteItem", "GetItem"} {
+			fn := ms[op]
+			if fn == nil {
+				continue
+			}
+			n++
+			construct := role + ".Client." + op + ":success-after-key-validation"
+			// calls that (transitively) derive the key
+			var keyCalls []ssa.Instruction
+			instrs(fn, func(in ssa.Instruction) {
+				c, ok := in.(*ssa.Call)
+				if !ok || c.Call.StaticCallee() == nil {
+					return
+				}
+				g := c.Call.StaticCallee()
+				if g == gk || (e.fnRole(g) != "" && e.reach(g)[gk]) {
+					keyCalls = append(keyCalls, in)
+				}
+			})
+			ei := errResultIndex(fn)
+			bad := ""
+			for _, r := range returnsOf(fn) {
+				if ei < 0 || !isNilConst(retVals(r)[ei]) {
+					continue
+				}
+				dominated := false
+				for _, kc := range keyCalls {
+					if idominates(kc, r) {
+						dominated = true
+					}
+				}
+				if !dominated {
+					bad = e.ipos(r)
+				}
+			}
+			if bad != "" {
+				e.fail("R8", construct, e.pos(fn.Pos()), "the success return at %s is not preceded on every path by the engine call that derives and validates the key: a request with a missing or wrongly typed key attribute succeeds on that path", bad)
+			} else {
+				e.pass("R8", construct, e.pos(fn.Pos()), "every success return is dominated by one of %d key-deriving engine call(s)", len(keyCalls))
+			}
+		}
+	}
+	if n < 8 {
+		e.fail("R8", "count:R8", "-", "only %d single-item operations found in the two clients", n)
+	}
 }
